@@ -121,120 +121,270 @@ pub fn check_a(c: &CaseA, obs: &mut Obs) -> Result<(), Fail> {
 // ---------------------------------------------------------------- lane B: end to end near the wrap point
 
 #[derive(Clone, Debug, Serialize, Deserialize)]
+pub enum Act {
+    /// answer one outstanding request (index picked monotonically)
+    AnswerOne(u16),
+    AnswerAll,
+    /// push responses for the next k ids the allocator will hand out, BEFORE their requests exist or
+    /// before the driver has dequeued them (a server answering ahead / late duplicates)
+    PrePush(u8),
+    /// as after a wrap-around: move the counter just below the lowest outstanding id and start a probe operation
+    Rewind,
+}
+
+#[derive(Clone, Debug, Serialize, Deserialize)]
 pub struct CaseB {
     below_max: u8,
     phantom: Vec<i32>,
-    waves: Vec<Vec<(u8, Single)>>,
+    /// per handle: its sequential operations
+    handles: Vec<Vec<Single>>,
+    script: Vec<Act>,
+    probes: u8,
+    chunks: Vec<usize>,
+    yields: Vec<bool>,
     sched: u64,
 }
 
 fn strat_b(_: &Ctx) -> BoxedStrategy<CaseB> {
-    let wave = vec((0u8..4, simops::single_strat()), 1..6);
-    (0u8..8, vec(id_near_edges(), 0..8), vec(wave, 1..4), any::<u64>()).prop_map(|(below_max, phantom, waves, sched)| CaseB { below_max, phantom, waves, sched }).boxed()
+    let handle = vec(simops::single_strat(), 1..4);
+    let handles = prop_oneof![6 => vec(handle.clone(), 1..6), 1 => vec(handle, 29..40)];
+    let act = prop_oneof![4 => any::<u16>().prop_map(Act::AnswerOne), 2 => Just(Act::AnswerAll), 2 => (1u8..6).prop_map(Act::PrePush), 2 => Just(Act::Rewind)];
+    (0u8..8, vec(id_near_edges(), 0..8), handles, vec(act, 1..12), 0u8..4, crate::props::c01::chunk_plan(), any::<u64>())
+        .prop_map(|(below_max, phantom, handles, script, probes, (chunks, yields), sched)| CaseB { below_max, phantom, handles, script, probes, chunks, yields, sched })
+        .boxed()
 }
 
 pub fn check_b(c: &CaseB, obs: &mut Obs) -> Result<(), Fail> {
     let cc = c.clone();
     let out = sim::run_sim(c.sched, async move {
+        use std::sync::{Arc, Mutex};
         let conn = sim::connect();
         {
             let mut t = conn.msgmap.lock().unwrap();
             t.0 = MAX - cc.below_max as i32;
             t.1 = cc.phantom.iter().copied().collect();
         }
+        conn.wire.with(|w| {
+            w.read_chunks = cc.chunks.clone();
+            w.yield_after_chunk = cc.yields.clone();
+        });
         let wire = conn.wire.clone();
+        let table = conn.msgmap.clone();
         let phantom: HashSet<i64> = cc.phantom.iter().map(|x| *x as i64).collect();
-        let waves = cc.waves.clone();
-        let srv = tokio::spawn(async move {
-            let mut problems = Vec::new();
-            let mut all_ids: Vec<i64> = Vec::new();
-            let mut crossed = false;
-            for w in &waves {
-                // ops of one handle are sequential; answer whenever nothing else can happen
-                let mut answered = 0usize;
-                let mut outstanding: Vec<(i64, u8)> = Vec::new();
-                let mut max_out = 0;
-                while answered < w.len() {
-                    quiesce().await;
-                    while let Some(r) = wire.try_recv() {
-                        if let Recv::Msg(Ok(m), _, _) = r {
-                            if !(1..=MAX as i64).contains(&m.id) {
-                                problems.push(format!("request id {} outside 1..2^31-1", m.id));
-                            }
-                            if outstanding.iter().any(|(i, _)| *i == m.id) {
-                                problems.push(format!("request id {} is shared by two outstanding operations", m.id));
-                            }
-                            if phantom.contains(&m.id) {
-                                problems.push(format!("request id {} was marked in use when it was issued", m.id));
-                            }
-                            if let Some(prev) = all_ids.last() {
-                                if m.id < *prev {
-                                    crossed = true;
-                                }
-                            }
-                            all_ids.push(m.id);
-                            outstanding.push((m.id, m.req.response_tag().unwrap_or(11)));
+        let completed: Arc<Mutex<HashSet<usize>>> = Arc::new(Mutex::new(HashSet::new()));
+        // marker index layout: handle ops first (flattened), then probes
+        let mut idx = 0usize;
+        let mut tasks = Vec::new();
+        let total_ops: usize = cc.handles.iter().map(|h| h.len()).sum();
+        let mut problems: Vec<String> = Vec::new();
+        let mut crossed = false;
+        let mut max_out = 0usize;
+        // optional pre-push before any request exists
+        let predict = |k: usize| -> Vec<i32> {
+            let t = table.lock().unwrap();
+            let mut in_use: BTreeSet<i32> = t.1.iter().copied().collect();
+            let mut last = t.0;
+            let mut v = Vec::new();
+            for _ in 0..k {
+                let n = model_next(last, &in_use);
+                v.push(n);
+                in_use.insert(n);
+                last = n;
+            }
+            v
+        };
+        let mut script = cc.script.clone();
+        if let Some(Act::PrePush(k)) = script.first().cloned() {
+            for id in predict(k as usize) {
+                wire.push(&RespMsg::new(id as i64, Resp::result(11, Res::ok("ahead"))).encode());
+            }
+            script.remove(0);
+        }
+        for h in &cc.handles {
+            let ops: Vec<(usize, Single)> = h.iter().map(|k| { let i = idx; idx += 1; (i, *k) }).collect();
+            let mut l = conn.ldap.clone();
+            let done = completed.clone();
+            tasks.push(tokio::spawn(async move {
+                let mut r = Vec::new();
+                for (i, k) in ops {
+                    let res = simops::exec_single(&mut l, k, &simops::marker(i)).await;
+                    done.lock().unwrap().insert(i);
+                    r.push((i, l.last_id(), res.is_ok()));
+                }
+                r
+            }));
+        }
+        let probe_go = Arc::new(tokio::sync::Semaphore::new(0));
+        for p in 0..cc.probes {
+            let i = total_ops + p as usize;
+            let mut l = conn.ldap.clone();
+            let go = probe_go.clone();
+            let done = completed.clone();
+            tasks.push(tokio::spawn(async move {
+                let permit = go.acquire().await;
+                if permit.is_err() {
+                    return vec![];
+                }
+                permit.unwrap().forget();
+                let res = simops::exec_single(&mut l, Single::Delete, &simops::marker(i)).await;
+                done.lock().unwrap().insert(i);
+                vec![(i, l.last_id(), res.is_ok())]
+            }));
+        }
+        // (marker idx, id, response tag)
+        let mut arrived: Vec<(usize, i64, u8)> = Vec::new();
+        let mut answered: HashSet<usize> = HashSet::new();
+        let mut last_seen: Option<i64> = None;
+        let mut step = 0usize;
+        let mut idle = 0;
+        loop {
+            quiesce().await;
+            let done_now: HashSet<usize> = completed.lock().unwrap().clone();
+            while let Some(r) = wire.try_recv() {
+                if let Recv::Msg(Ok(m), _, _) = r {
+                    let Some(i) = simops::marker_index(&m) else { continue };
+                    if !(1..=MAX as i64).contains(&m.id) {
+                        problems.push(format!("request id {} outside 1..2^31-1", m.id));
+                    }
+                    if let Some((j, _, _)) = arrived.iter().find(|(j, id, _)| *id == m.id && !done_now.contains(j)) {
+                        problems.push(format!("request id {} of operation {} is shared with operation {} which is still outstanding", m.id, i, j));
+                    }
+                    if phantom.contains(&m.id) {
+                        problems.push(format!("request id {} was marked in use when it was issued", m.id));
+                    }
+                    if let Some(prev) = last_seen {
+                        if m.id < prev {
+                            crossed = true;
                         }
                     }
-                    max_out = max_out.max(outstanding.len());
-                    if outstanding.is_empty() {
-                        problems.push("wave stalled: no request arrived".to_string());
-                        break;
-                    }
-                    // answer the newest first so that completion order differs from issue order
-                    let (id, tag) = outstanding.pop().unwrap();
-                    wire.push(&RespMsg::new(id, Resp::result(tag, Res::ok("ok"))).encode());
-                    answered += 1;
-                }
-                if max_out >= 2 {
-                    crossed |= false;
+                    last_seen = Some(m.id);
+                    arrived.push((i, m.id, m.req.response_tag().unwrap_or(11)));
                 }
             }
-            (problems, all_ids, crossed)
-        });
-        let mut results = Vec::new();
-        let mut idx = 0usize;
-        for w in &cc.waves {
-            let mut by_handle: std::collections::BTreeMap<u8, Vec<(usize, Single)>> = Default::default();
-            for (h, k) in w {
-                by_handle.entry(*h).or_default().push((idx, *k));
-                idx += 1;
-            }
-            let mut tasks = Vec::new();
-            for (_, ops) in by_handle {
-                let mut l = conn.ldap.clone();
-                tasks.push(tokio::spawn(async move {
-                    let mut r = Vec::new();
-                    for (i, k) in ops {
-                        let res = simops::exec_single(&mut l, k, &simops::marker(i)).await;
-                        r.push((l.last_id(), res.is_ok()));
+            // every operation still outstanding from the caller's point of view keeps its id reserved
+            {
+                let t = table.lock().unwrap();
+                for (i, id, _) in &arrived {
+                    if !done_now.contains(i) && !t.1.contains(&(*id as i32)) {
+                        problems.push(format!("operation {} is still outstanding under message id {} but that id is no longer reserved in the id table", i, id));
                     }
-                    r
-                }));
+                }
             }
-            for t in tasks {
-                match t.await {
-                    Ok(v) => results.extend(v),
-                    Err(_) => results.push((-1, false)),
+            if !problems.is_empty() {
+                break;
+            }
+            let outstanding: Vec<(usize, i64, u8)> = arrived.iter().filter(|(i, _, _)| !done_now.contains(i) && !answered.contains(i)).cloned().collect();
+            max_out = max_out.max(outstanding.len());
+            if done_now.len() >= total_ops + 0 && outstanding.is_empty() && arrived.len() >= total_ops {
+                break;
+            }
+            let act = if step < script.len() { script[step].clone() } else { Act::AnswerAll };
+            step += 1;
+            match act {
+                Act::PrePush(k) => {
+                    for id in predict(k as usize) {
+                        wire.push(&RespMsg::new(id as i64, Resp::result(11, Res::ok("ahead"))).encode());
+                    }
+                }
+                Act::Rewind => {
+                    if let Some(min) = outstanding.iter().map(|o| o.1).min() {
+                        table.lock().unwrap().0 = if min <= 1 { MAX } else { (min - 1) as i32 };
+                        probe_go.add_permits(1);
+                    }
+                }
+                Act::AnswerOne(p) => {
+                    if !outstanding.is_empty() {
+                        let (i, id, tag) = outstanding[crate::runner::pick_idx(p, outstanding.len())];
+                        wire.push(&RespMsg::new(id, Resp::result(tag, Res::ok("ok"))).encode());
+                        answered.insert(i);
+                    }
+                }
+                Act::AnswerAll => {
+                    let mut b = Vec::new();
+                    for (i, id, tag) in outstanding.iter().rev() {
+                        b.extend_from_slice(&RespMsg::new(*id, Resp::result(*tag, Res::ok("ok"))).encode());
+                        answered.insert(*i);
+                    }
+                    if b.is_empty() {
+                        idle += 1;
+                        if idle > 6 {
+                            // an operation whose answer was swallowed ahead of time: answer every unfinished one again
+                            let mut b2 = Vec::new();
+                            for (i, id, tag) in arrived.iter().filter(|(i, _, _)| !done_now.contains(i)) {
+                                let _ = i;
+                                b2.extend_from_slice(&RespMsg::new(*id, Resp::result(*tag, Res::ok("ok"))).encode());
+                            }
+                            wire.push(&b2);
+                            if idle > 40 {
+                                problems.push(format!("history does not finish: {} of {} operations done", done_now.len(), total_ops));
+                                break;
+                            }
+                        }
+                    } else {
+                        idle = 0;
+                        wire.push(&b);
+                    }
                 }
             }
         }
-        let (problems, ids, crossed) = srv.await.expect("server");
-        (results, problems, ids, crossed)
+        // release probes that were never triggered, then finish whatever is still outstanding
+        probe_go.close();
+        for _ in 0..50 {
+            quiesce().await;
+            let done_now: HashSet<usize> = completed.lock().unwrap().clone();
+            while let Some(r) = wire.try_recv() {
+                if let Recv::Msg(Ok(m), _, _) = r {
+                    if let Some(i) = simops::marker_index(&m) {
+                        arrived.push((i, m.id, m.req.response_tag().unwrap_or(11)));
+                    }
+                }
+            }
+            let rest: Vec<&(usize, i64, u8)> = arrived.iter().filter(|(i, _, _)| !done_now.contains(i)).collect();
+            if rest.is_empty() {
+                break;
+            }
+            let mut b = Vec::new();
+            for (_, id, tag) in rest {
+                b.extend_from_slice(&RespMsg::new(*id, Resp::result(*tag, Res::ok("ok"))).encode());
+            }
+            wire.push(&b);
+        }
+        let mut results = Vec::new();
+        for t in tasks {
+            match tokio::time::timeout(std::time::Duration::from_secs(3600), t).await {
+                Ok(Ok(v)) => results.extend(v),
+                Ok(Err(_)) => results.push((usize::MAX, -1, false)),
+                Err(_) => results.push((usize::MAX, -2, false)),
+            }
+        }
+        let ids: Vec<i64> = arrived.iter().map(|a| a.1).collect();
+        (results, problems, ids, crossed, max_out)
     });
-    let (results, problems, ids, crossed) = match out {
+    let (results, problems, ids, crossed, max_out) = match out {
         SimResult::Done(v) => v,
         SimResult::Hang => fail!("c05:hang", "operations near the wrap-around point never completed"),
     };
-    if results.iter().any(|r| r.0 == -1) {
+    if results.iter().any(|r| r.1 == -1) {
         let p = crate::runner::take_panics();
         fail!(p.first().map(|p| panic_sig(p)).unwrap_or("c05:panic".into()), "an operation panicked near the wrap-around point: {:?}", p);
     }
     ensure!(problems.is_empty(), "c05:wire-id", "{:?} (ids on the wire: {:?})", problems, ids);
-    ensure!(results.iter().all(|r| r.1), "c05:op-failed", "an operation failed: {:?}", results);
+    ensure!(!results.iter().any(|r| r.1 == -2), "c05:hang", "an operation never completed");
+    ensure!(results.iter().all(|r| r.2), "c05:op-failed", "an operation failed: {:?}", results);
+    if max_out >= 29 {
+        obs.label("burst>=29-outstanding");
+    }
+    if c.script.iter().any(|a| matches!(a, Act::PrePush(_))) {
+        obs.label("responses-ahead-of-requests");
+    }
+    if c.script.iter().any(|a| matches!(a, Act::Rewind)) && c.probes > 0 {
+        obs.label("rewind-with-probe");
+    }
     if crossed {
         obs.label("crossed-wrap-point");
-        obs.nontrivial((c.below_max, &c.phantom, format!("{:?}", c.waves)));
+    }
+    if crossed || max_out >= 2 {
+        obs.nontrivial((c.below_max, &c.phantom, format!("{:?}{:?}", c.handles, c.script)));
     }
     Ok(())
 }
@@ -295,7 +445,7 @@ pub fn property() -> Property {
     Property {
         id: "C05",
         level: "exploration",
-        rule: "lanes: allocator (start state: counter anywhere in 0..2^31-1 biased to 0, 1 and MAX-5..MAX; in-use set arbitrary, biased to clusters at both ends of the id space; then 1-60 steps of allocate-on-handle-h / release-id as the driver does; each allocation must be in 1..MAX, not in use, equal to the reference model 'next free id after the last one in cyclic order', and be reserved); e2e (simulated connection with the counter positioned 0-7 below MAX and phantom in-use ids; waves of concurrent operations from up to 4 handles, the server checks every arriving request id is in range, differs from every unanswered one and from the phantom set, and answers newest-first); threads (2-16 OS threads x 500-20000 allocations on clones sharing one table, starting at or below the wrap point, no releases: no id may be handed out twice). Non-trivial: an allocation that wraps MAX->1 while ids are in use, or >=2 ids outstanding at once; e2e histories that cross the wrap point; every thread run. Distinct = hash of the case.",
+        rule: "lanes: allocator (start state: counter anywhere in 0..2^31-1 biased to 0, 1 and MAX-5..MAX; in-use set arbitrary, biased to clusters at both ends of the id space; then 1-60 steps of allocate-on-handle-h / release-id as the driver does; each allocation must be in 1..MAX, not in use, equal to the reference model 'next free id after the last one in cyclic order', and be reserved); e2e (simulated connection with the counter positioned 0-7 below MAX and phantom in-use ids; 1-40 handles each issuing 1-3 sequential operations, read segmentation with forced yields; a generated server script of answer-one / answer-all / push responses AHEAD for the ids the allocator will hand out next / rewind the counter below the lowest outstanding id and start a probe operation; at every quiescent point every arriving request id must be in range, differ from the id of every operation still outstanding from the caller's point of view and from the phantom set, and every outstanding operation's id must still be reserved in the id table); threads (2-16 OS threads x 500-20000 allocations on clones sharing one table, starting at or below the wrap point, no releases: no id may be handed out twice). Non-trivial: an allocation that wraps MAX->1 while ids are in use, or >=2 ids outstanding at once; e2e histories with >=2 operations outstanding or crossing the wrap point; every thread run. Distinct = hash of the case.",
         assumptions: &["hooks verif_msgmap / verif_next_msgid drive the real allocator and table", "interleavings inside the allocator's critical section are sampled by the real-thread lane, not enumerated"],
         lanes: vec![
             Box::new(PLane { name: "allocator", cases: |t| t.pick(4_000, 80_000), strat: strat_a, check: check_a }),
